@@ -135,6 +135,7 @@ class WaitCall:
     idx_after: int = 0  # TaskJournal._replay_index after the call
     insert_seq: int | None = None  # seq_num of the INSERT made during the call
     replaying_after: bool = False  # adapter.is_replaying() right after the call (what the tick of this completion is published under)
+    table_after: list | None = None  # C27 history monitors: (seq_num, key) rows of the run READ BACK from the table after the call, in id order
 
 
 @dataclass
@@ -366,7 +367,8 @@ def install_observers() -> None:
             purged=bool(getattr(tr, "_purged_flag", False)),
             entries_after=None if journal._entries is None else list(journal._entries), idx_after=journal._replay_index,
             insert_seq=tr.inserts[-1][0] if getattr(tr, "_recorded_flag", False) and tr.inserts else None,
-            replaying_after=bool(self.is_replaying())))
+            replaying_after=bool(self.is_replaying()),
+            table_after=_journal_rows(self._db_path, self._run_id) if getattr(self, "_db_path", None) else None))
         return res
 
     RT.InternalDBOSAdapter.wait_for_next_task = wait_wrapper  # type: ignore[method-assign]
